@@ -109,7 +109,11 @@ theorem wedgeRing_eq (k : Nat) :
       .ok (wedgeRingOf amin amax (ringArcsWith dest center inner outer amin amax k)) := by
   obtain ⟨t, ht⟩ := schedule_cons (kOr k (ringDefaultK amin amax))
   simp only [Src.CurvedGen.wedgeRing, ringArcs_eq, wedgeRingOf, isFullRing]
-  split <;> simp_all [ringArcsWith, GV.Py.getIdx]
+  rcases Bool.eq_false_or_eq_true (Num.le amin (ofI 0)) with h1 | h1 <;>
+    rcases Bool.eq_false_or_eq_true (Num.le (ofI 0) amin) with h2 | h2 <;>
+    rcases Bool.eq_false_or_eq_true (Num.le amax (ofI 360)) with h3 | h3 <;>
+    rcases Bool.eq_false_or_eq_true (Num.le (ofI 360) amax) with h4 | h4 <;>
+    simp [ringArcsWith, ht, GV.Py.getIdx, h1, h2, h3, h4]
 
 /-- `GeoCircle.bounds` (with `inverse_haversine_degrees` the model's) -/
 theorem circleBounds_eq (rnd : α → α) (R : α) :
